@@ -987,7 +987,7 @@ def dec_setter_stream(g, n=25, start_id=13000):
 
 def dec_extra_catalogue(g):
     """single deterministic histories added after the second seeding round"""
-    ops = []
+    ops = dispatch_boundary_stream()
     d = 14000
     def new(*a):
         nonlocal d
@@ -1695,12 +1695,16 @@ def both_sensitivities_stream(g, n=12, start_id=27000):
         f = rnd.choice(fields)
         tb = rnd.choice(['bb', 'ss'])
         variants = [('2', 'N'), ('H', 'N'), ('3f', '3t'), ('T', 'S'), ('2', 'S'), ('H', '3t')]
-        for split in (False, True):
+        for split, tsize in ((False, None), (True, None), (True, 0), (True, 40), (False, 0)):
             ids = []
             for pf, sf in variants:
                 i += 1
                 ids.append(i)
                 ops.append('enew %d' % i)
+                if tsize is not None:
+                    # a table that keeps nothing (0) or at most the last small entry (40): the field is never / no longer
+                    # in the table when it comes back with the other sensitivity
+                    ops.append('esize %d %d' % (i, tsize))
                 toks = ['%s%s:%s:%s' % (sf if sbit else pf, tb, hx(f[0]), hx(f[1])) for sbit in pattern]
                 if split:
                     for t in toks:
@@ -2358,4 +2362,47 @@ def huff_copy_stream(g):
         ops.append('hcopy ' + kind)
         ops += probe
         ops += ['hrt ' + hx(bytes(g.rnd.randrange(256) for _ in range(g.rnd.randint(1, 30)))) for _ in range(10)]
+    return ops
+
+
+def henc_shared_stream(g, n=60):
+    """strings handed to HuffmanEncoder.encode in one bytearray that the application overwrites in place between calls
+    (same length / other lengths / the same content again), as bytearray and as a memoryview of it"""
+    ops = []
+    rnd = g.rnd
+    pool = [b'session=alpha', b'session=gamma', b'session=alpha', b'', b'a', b'b', b'custom-key', b'custom-val', b'\xff\xfe', b'\x00\x01']
+    for j in range(n):
+        s = rnd.choice(pool) if rnd.random() < 0.7 else bytes(rnd.randrange(256) for _ in range(rnd.choice([1, 2, 13, 13, 30])))
+        kind = rnd.choice(['shared', 'shared', 'mv-shared', 'bytearray', 'memoryview', ''])
+        ops.append('henc ' + hx(s) + (' #buf=' + kind if kind else ''))
+        if rnd.random() < 0.3:
+            ops.append('henc ' + hx(s) + ' #buf=shared')          # the very same content again
+    for a, b in ((b'session=alpha', b'session=gamma'), (b'aaaa', b'bbbb'), (b'x', b'y'), (b'0123456789' * 30, b'9876543210' * 30)):
+        for kind in ('shared', 'mv-shared'):
+            ops += ['henc ' + hx(a) + ' #buf=' + kind, 'henc ' + hx(b) + ' #buf=' + kind, 'henc ' + hx(a) + ' #buf=' + kind]
+    return ops
+
+
+def dispatch_boundary_stream(start_id=47000):
+    """every boundary of the first-octet dispatch (1xxxxxxx indexed / 01 incremental / 001 size update / 0001 never /
+    0000 without indexing) followed by tails that would be well-formed under ANOTHER reading of that octet -- on a fresh
+    decoder and on one holding entries, first in the block and after a field, raw and text mode"""
+    ops = []
+    firsts = [0x80, 0x81, 0xbe, 0xbf, 0xff, 0x7f, 0x7e, 0x40, 0x41, 0x3f, 0x3e, 0x30, 0x2f, 0x21, 0x20, 0x1f, 0x1e, 0x11, 0x10, 0x0f, 0x0e, 0x01, 0x00]
+    tails = [b'', b'\x01a\x01b', b'\x00', b'\x00\x00', b'\x82', b'\x01a', b'\xbe', b'\x20', b'\x3f\xe1\x1f', b'\x7f', b'\x00\x01v',
+             b'\x01\x61\x01\x62\x82', b'\x82\x84', b'\x81\x1f\x81\x1f', b'\x10', b'\x40\x01k\x01v']
+    i = start_id
+    for warm in (None, b'\x40\x01k\x01v\x40\x01m\x01w', b'\x3f\x09\x40\x01k\x00'):
+        for lead in (b'', b'\x82'):
+            i += 1
+            ops.append('dnew %d' % i)
+            for f in firsts:
+                for t in tails:
+                    if warm is not None:
+                        i += 1
+                        ops.append('dnew %d' % i)
+                        ops.append('ddec %d 1 %s' % (i, hx(warm)))
+                    ops.append('ddec %d %d %s' % (i, (f + len(t)) % 2, hx(lead + bytes([f]) + t)))
+                    if warm is not None:
+                        ops.append('ddec %d 1 bebf' % i)
     return ops
